@@ -108,6 +108,11 @@ def map_view(ex, m, which):
     run.axiom(z3.Length(r) == n)
     run.axiom(P.forall([i], z3.Implies(z3.And(i >= 0, i < n),
                                          r[i] == tk.mk(keys[i], k.optv.val(z3.Select(arr, keys[i])))), patterns=[r[i]]))
+    run.ghost.setdefault('_items', {})[r.sexpr()] = (k, m.t, tk)
+    idx = P.ufn(f'key_index_{k.name}', [k.sort(), k.key.sort()], z3.IntSort())
+    x = z3.Const(f'mv_k_{k.key.name}', k.key.sort())
+    run.axiom(P.forall([x], z3.Implies(z3.Not(k.optv.is_none(z3.Select(arr, x))),
+                                         r[idx(m.t, x)] == tk.mk(x, k.optv.val(z3.Select(arr, x)))), patterns=[z3.Select(arr, x)]))
     return Sym(sk, r)
 
 
@@ -130,6 +135,11 @@ def wf_map(ex, m):
                          patterns=[P.mpat(keys[i], keys[j])]))
     run.axiom(P.forall([i], z3.Implies(z3.And(i >= 0, i < z3.Length(keys)),
                                          z3.Not(k.optv.is_none(z3.Select(arr, keys[i])))), patterns=[keys[i]]))
+    # every present key sits at some position of the key order (Skolem function)
+    idx = P.ufn(f'key_index_{k.name}', [k.sort(), k.key.sort()], z3.IntSort())
+    run.axiom(P.forall([x], z3.Implies(z3.Not(k.optv.is_none(z3.Select(arr, x))),
+                                         z3.And(idx(m.t, x) >= 0, idx(m.t, x) < z3.Length(keys), keys[idx(m.t, x)] == x)),
+                       patterns=[z3.Select(arr, x)]))
 
 
 def view_seq(ex, view):
